@@ -20,6 +20,15 @@ impl<T> ChannelSlots<T> {
         }
     }
 
+    /// (open ids sorted, freed ids in pop order last-first, next never-used id, channel_max)
+    #[cfg(amiquip_verif)]
+    pub(crate) fn verif_snapshot(&self) -> (Vec<u16>, Vec<u16>, u16, u16) {
+        let mut open: Vec<u16> = self.slots.keys().copied().collect();
+        open.sort_unstable();
+        let freed: Vec<u16> = self.freed_channel_ids.iter().copied().collect();
+        (open, freed, self.next_channel_id, self.channel_max)
+    }
+
     pub(crate) fn drain(&mut self) -> Drain<u16, T> {
         for (id, _) in self.slots.iter() {
             self.freed_channel_ids.insert(*id);
